@@ -12,13 +12,13 @@ LEVEL = "proof"
 # tie A for the solver loop: Gen/GenSolver.v is the control-flow skeleton of StochasticSolver.solve regenerated from the source of THIS
 # run by tools/pyx2v_skel.py (builder w4-skel); Proofs/W4SSolver.v bridges it to Alg/C13Solver.v and Props/W4SC13.v restates
 # C13_best_model / C13_trace_len / C13_reported_trace_full over the generated function — an edit of the epoch loop in /repo breaks them
-INCLUDE = ['w4s_c13']   # wave 4 (lead, integration): generated skeleton of StochasticSolver.solve (Gen/GenSolver.v): bridge theorems + replay stream sk_solve
+INCLUDE = ['w4s_c13', 'w4s_c13b', 'w4s_c13c']   # wave 4 (lead, integration): generated skeleton of StochasticSolver.solve (Gen/GenSolver.v): bridge theorems + replay stream sk_solve
 GEN_UNITS = ["GenSolver"]
-COQ_TARGETS = ["Props/C13.vo", "Alg/C13Harness.vo", "Alg/C13Config.vo", "Alg/C13Vec.vo", "Alg/C13StepArith.vo", "Alg/C13Thm.vo", "Alg/C13Opts.vo", "Alg/C13Driver.vo", "Alg/C13Solver2.vo", "Alg/C13Gen.vo", "Props/C13b.vo", "Model/Harness.vo",
+COQ_TARGETS = ["Props/C13.vo", "Alg/C13Harness.vo", "Alg/C13Config.vo", "Alg/C13Vec.vo", "Alg/C13StepArith.vo", "Alg/C13Thm.vo", "Alg/C13Opts.vo", "Alg/C13Driver.vo", "Alg/C13Direct.vo", "Alg/C13Solver2.vo", "Alg/C13Gen.vo", "Props/C13b.vo", "Model/Harness.vo",
                "Props/W4SC13.vo"]
 THEOREM_FILES = ["Props/C13.v", "Props/C13b.v", "Props/W4SC13.v"]
 COQ_IMPORTS = ("From Coq Require Import List ZArith Bool QArith Qcanon.\n"
-               "From PV Require Import Base.Index Np.Array Model.Sparse Model.Harness Model.Repr Alg.C13Samplers Alg.C13Solver Alg.C13Steps Alg.C13Config Alg.C13Harness Alg.C13StepArith Alg.C13Opts Alg.C13Driver.\n")
+               "From PV Require Import Base.Index Np.Array Model.Sparse Model.Harness Model.Repr Alg.C13Samplers Alg.C13Solver Alg.C13Steps Alg.C13Config Alg.C13Harness Alg.C13StepArith Alg.C13Opts Alg.C13Driver Alg.C13Direct.\n")
 RULE = ("samplers: dense / sparse integer tensors with 2..12 cells (empty, one nonzero, some, nearly full, full), every sampler "
         "kind, counts 0..6 (incl. more nonzero samples than nonzeros), numpy's draws captured (and in a separate stream forced to 0.0 / "
         "1-2^-53) and replayed through the model; solves: SGD/Adam/Adagrad on 2x2..3x3x2 problems with rates from 1e-3 to 30 (failing "
@@ -34,8 +34,18 @@ RULE = ("samplers: dense / sparse integer tensors with 2..12 cells (empty, one n
         "0/1/3, maxfun 1..3, pgtol 1e10, m=1, factr 10 / 1e16), initial factors C-/F-ordered / non-contiguous views, data scaled by "
         "2^-20..2^20, starts scaled by 2^-3..2^3 (infeasible starts), masks, one third through gcp_opt (mask as tensor / array); what "
         "is handed to / answered by scipy.optimize.fmin_l_bfgs_b captured and the answered vector replayed through the Coq wrapper model; "
-        "lbfgsb_reuse: 2-3 solves of different sizes on one LBFGSB object vs fresh objects; non-trivial = more than one cell and at "
-        "least one sample / epoch")
+        "lbfgsb_reuse: 2-3 solves of different sizes on one LBFGSB object vs fresh objects, plus sequences small -> big -> small / big -> small "
+        "(4 vs 36-40 cells) with factr = 0 so that the projected-gradient test decides the termination (default and explicit pgtol); in "
+        "every lbfgsb / lbfgsb_reuse solve every keyword handed to scipy is recorded and compared with the option-dictionary model "
+        "(Alg/C13Opts.v); scripted estimates: the function estimator answers a prescribed sequence, every relative order (ties incl.) of 4 "
+        "estimates x max_fails 0..2 and of 5 estimates (max_fails rotating; thorough: all) x tol none / 1.5; solves started at an exact "
+        "solution (every gradient exactly zero) for the three optimizers; driver: every request class gcp_opt distinguishes (objective enum "
+        "valid / invalid data / needing a parameter / tuple of 2, 3, 4; data dense / sparse / neither; mask none / tensor / array; init "
+        "random / ktensor / list with right and wrong shape and rank / unbuildable list / other string / other object; optimizer SGD / Adam "
+        "/ LBFGSB / neither) with recording solver subclasses — all dispatching classes, a sample of the full product (thorough: all); "
+        "direct: samplers.nonzeros / samplers.zeros called directly with and WITHOUT replacement, requests below / at / above the number of "
+        "nonzeros resp. zeros, over_sample_rate 1.0 / 1.1 / 2.0 (choice positions, draws and np.ceil calls captured); "
+        "non-trivial = more than one cell and at least one sample / epoch")
 EXPLANATION = ("Theorems (Alg/C13Samplers.v, C13Solver.v, C13Steps.v, C13StepArith.v, C13Config.v) are about state machines whose random "
                "draws, objective estimates, square roots and scipy's answer are inputs; the correspondence captures exactly those inputs "
                "from a real pyttb run (numpy.random, pyttb.gcp.optimizers.estimate / fmin_l_bfgs_b / the name np inside "
@@ -44,13 +54,19 @@ EXPLANATION = ("Theorems (Alg/C13Samplers.v, C13Solver.v, C13Steps.v, C13StepAri
                "behaviour is accepted everywhere except inside the trigger region of the open finding C13-S1 (short zero supply, "
                "decided from the inputs and the captured draws alone — the NUMBER of draws is tied to the request by the oversampling "
                "rule —: faithful and repaired stratified sampler both accepted). Comparisons of exact observations are made in Coq; "
-               "only identity / array_equal bits (obs_bits) are decided by the harness.")
+               "only identity / array_equal bits (obs_bits) are decided by the harness. Open finding C13-G1 (Adagrad turns the model "
+               "into nan on an exactly zero gradient while its accumulator is 0): the trigger is decided from the captured update-step "
+               "inputs; the model (exact-rational step: stays put) is the repaired behaviour. The driver stream compares the outcome of "
+               "gcp_opt (which rejection fires / which solver gets which bound, data, mask, sampler, initial guess) with the decision "
+               "procedure Alg/C13Driver.v; the data-validity test of fg_setup.setup and the ktensor constructor on a user list are oracles.")
 CORRESPONDENCE_ONLY = ["floating-point rounding of the Adam / Adagrad / SGD update arithmetic (the exact-rational step functions are theorems: closed forms, direction, bounds, state updates; pyttb's floats are compared with them to 1e-9 on the captured steps) and numpy's sqrt (oracle: >= 0 and s*s = x to 1e-9 checked on every captured call)",
                        "scipy.optimize.fmin_l_bfgs_b itself (oracle; its contract 'returned point never worse than a feasible start, result inside the bounds' is checked on sampled runs incl. abandoned line searches)",
                        "GCPSampler default counts / oversampling rule of samplers.zeros / LBFGSB wrapper / update steps / sampler bodies: theorems are about hand transliterations (Alg/C13Config.v, C13Samplers.v, C13Steps.v) tied by read-back / capture correspondence (float ceilings, square roots, draws, scipy's answer are recorded oracles), not by translation; the StochasticSolver.solve loop IS tied by translation (Gen/GenSolver.v, Props/W4SC13.v)",
-                       "gcp_opt driver (initial-guess normalisation, mask conversion, dispatch): exercised by the solve / lbfgsb cases that go through it (returned initial model has unit weights and denotes the init handed in; random init scaled to the data norm; caller's data unchanged), no theorem"]
+                       "gcp_opt driver: argument handling and dispatch are a hand transliteration (Alg/C13Driver.v, theorems C13_driver_*) tied by the `driver` stream with recording solvers (w5-skel is generating Gen/GenGcpOpt.v: bridge not done); the NUMERICS of the initial guess (normalize('all'), scaling of a random guess to the data norm) are compared by the harness (unit weights, same denotation / same norm to 1e-9), no theorem; fg_setup.setup's data-validity tests are an oracle, its table of lower bounds is transliterated (setup_lb)",
+                       "samplers.nonzeros / samplers.zeros without replacement: hand transliteration (Alg/C13Direct.v); np.unique is a parameter of C13_zeros_rows of which only 'duplicate-free selection of its input' is assumed — the check runs the executable lex_usort (sorted distinct rows) and tests its answer for duplicates on every case, no proof that lex_usort is duplicate-free; np.random.choice(replace=False) is an oracle whose answer is tested for duplicates; the coupon-collector ceiling (log) is a recorded oracle of which only the LAST recorded ceiling = number of drawn rows is compared",
+                       "LBFGSB option dictionary: hand transliteration (Alg/C13Opts.v, C13_lbfgsb_options / C13_lbfgsb_pgtol) tied by recording every keyword handed to scipy in every lbfgsb / lbfgsb_reuse solve"]
 ASSUMPTIONS = ["numpy draws are multiples of 2^-53 in [0,1); the float product u*d is taken exactly (its rounding is not modelled)",
-               "objective estimates are compared by their exact float values; NaN estimates are outside the model (total order)",
+               "objective estimates are compared by their exact float values; NaN estimates are outside the model (total order): a run whose estimates are not finite is skipped UNLESS an Adagrad step with an exactly zero gradient and empty accumulator was captured in it (then it is the open finding C13-G1, not a diverging run)",
                "scipy.optimize.fmin_l_bfgs_b returns a point of the start's length that is never worse than a FEASIBLE start and keeps it feasible (scipy_contract); about the value it reports only 'reported value = objective at the returned point unless warnflag = 2' (scipy_reports_value) is assumed, and only by C13_lbfgsb_final_f: after an abandoned line search scipy reports the rejected trial point's value and the wrapper re-evaluates (C13-L1, repaired)",
                "the float quotient / product under math.ceil (GCPSampler defaults) and np.ceil (samplers.zeros) lies within one rounding (2^-52 relative) of the exact one; ceil itself is exact on its float argument (both checked on every recorded call)",
                "an infeasible start is first projected into the box by scipy: 'the start' of the never-worse clause is that projected point",
@@ -80,6 +96,9 @@ def _rand_sparse(rng, shape, kind):
 def gen_cases(rng, tier):
     big = tier == "thorough"
     cases = []
+    # the wave-5 streams (scripted estimates, pgtol-decided reuse sequences, driver) draw from a generator derived from rng's state
+    # WITHOUT consuming it, so the older streams and the INCLUDEd module see exactly the draws they saw before
+    rng5 = __import__("random").Random(repr(rng.getstate()[1][:16]))
     shapes = [(2, 2), (2, 3), (3, 2), (1, 3), (2, 1, 2), (2, 2, 3), (4,), (3, 1), (2, 2, 2)]
     reps = 4 if big else 1
     for rep in range(reps):
@@ -131,7 +150,7 @@ def gen_cases(rng, tier):
         for idx, w in enumerate(U.weak_orderings(n)):
             for mf in ((0, 1, 2) if (n == 4 or big) else (idx % 3,)):
                 shp = [(2, 2), (2, 3), (3, 2, 2)][kopt % 3]
-                a = U.rand_problem(rng, shp)
+                a = U.rand_problem(rng5, shp)
                 a["sparse"] = False
                 a.update({"opt": ["sgd", "adam", "adagrad"][kopt % 3], "rate": [0.01, 0.125][kopt % 2], "decay": 0.5, "max_fails": mf,
                           "epoch_iters": 1 + kopt % 2, "max_iters": n - 1, "tol": [None, None, None, 1.5][(idx + mf) % 4],
@@ -140,6 +159,18 @@ def gen_cases(rng, tier):
                 cases.append(Case("solve", a, True))
                 if n == 4 or big:
                     cases.append(Case("solve_trace", dict(a), True))
+    # ---- solves started AT an exact solution (data = the tensor the initial guess denotes, dyadic factors: every sampled gradient is
+    #      exactly zero): no optimizer may leave a finite model (Adagrad: input class of the open finding C13-G1)
+    for k in range(18 if big else 6):
+        shp = [(2, 3), (2, 2), (3, 2, 2)][k % 3]
+        a = U.rand_problem(rng5, shp)
+        a["sparse"], a["obj"] = False, ["gaussian", "gaussian_lb"][k % 2]
+        fac = a["init"]
+        a["data"] = [float(sum(math.prod(Fraction(fac[m][i][r]) for m, i in enumerate(sub)) for r in range(a["R"]))) for sub in tgen.all_subs(shp)]
+        a.update({"opt": ["adagrad", "sgd", "adam"][k % 3], "rate": 0.125, "decay": 0.5, "max_fails": k % 2, "epoch_iters": 1 + k % 2,
+                  "max_iters": 2 + k % 2, "tol": None})
+        cases.append(Case("solve", a, True))
+        cases.append(Case("solve_trace", dict(a), True))
     # ---- L-BFGS-B wrapper (scipy is an oracle): option corners that change scipy's control flow (abandoned line searches,
     #      budgets of 0..3 iterations / evaluations), memory layouts of the initial factors, data / start magnitudes 2^-20..2^20;
     #      the vector scipy answers is replayed through the Coq wrapper model (returned model = that vector, read back)
@@ -175,12 +206,12 @@ def gen_cases(rng, tier):
     for k in range(12 if big else 4):
         opts = [{"factr": 0.0, "maxiter": 60}, {"factr": 0.0, "maxiter": 60, "pgtol": 1e-3}, {"factr": 0.0, "maxiter": 40, "m": 3},
                 {"factr": 0.0, "maxiter": 60}][k % 4]
-        small, bigs = rng.choice([(2, 2), (3, 1), (2, 1, 2)]), rng.choice([(4, 3, 3), (5, 4, 2), (6, 6)])
+        small, bigs = rng5.choice([(2, 2), (3, 1), (2, 1, 2)]), rng5.choice([(4, 3, 3), (5, 4, 2), (6, 6)])
         order = [small, bigs, small] if k % 2 == 0 else [bigs, small]
         probs = []
         for shp in order:
-            p = U.rand_problem(rng, shp)
-            p.update({"layout": rng.choice(["C", "F"]), "mask": None, "obj": rng.choice(["gaussian", "poisson"])})
+            p = U.rand_problem(rng5, shp)
+            p.update({"layout": rng5.choice(["C", "F"]), "mask": None, "obj": rng5.choice(["gaussian", "poisson"])})
             probs.append(p)
         cases.append(Case("lbfgsb_reuse", {"opts": dict(opts), "probs": probs}, True))
     # ---- update-step arithmetic: every step of a solve captured, a few replayed through the exact-rational step models
@@ -232,7 +263,9 @@ def gen_cases(rng, tier):
     # ---- GCPSampler configuration table (counts read back from the object)
     cases += U.config_cases(rng, big)
     # ---- the gcp_opt driver in isolation: every request class it distinguishes, recording solver objects (tools/props/c13_driver.py)
-    cases += D.driver_cases(rng, big)
+    cases += D.driver_cases(rng5, big)
+    # ---- samplers.nonzeros / samplers.zeros called directly, with and without replacement
+    cases += D.direct_cases(rng5, big)
     return cases
 
 
@@ -258,6 +291,8 @@ def run_impl(c):
             o = U.run_lbfgsb_reuse(a)
         elif c.op == "config":
             o = U.run_config(a)
+        elif c.op == "direct":
+            o = D.run_direct(a)
         elif c.op == "driver":
             return D.run_driver(a)          # exceptions of gcp_opt are observations here, everything else is a harness error
         else:
@@ -326,6 +361,8 @@ def coq_check(c, o):
         return None
     if c.op == "driver":
         return D.driver_check(a, o)
+    if c.op == "direct":
+        return D.direct_check(a, o)
     if "exc" in o:
         if c.op.startswith(("strat", "semi")):
             # rejection is the right answer exactly for nonzero samples requested from a tensor without nonzeros (decided in Coq)
@@ -398,6 +435,8 @@ def coq_check(c, o):
         zeros_part = gzmat(o["subs"][cn:])
         ztrue = "true" if semi else f"zeros_ok_sp {S} {zeros_part}"
         return (f"sample_ok_sp {S} {gzmat(o['subs'])} {gzlist(o['vals'])} {gnat(nw)} && {shape_ok} && {ztrue} && {tot}")
+    if c.op in ("solve", "solve_trace") and o.get("nonfinite"):
+        return "false"          # a nan model / trace is never what the model answers (the exact-rational Adagrad step stays put on a zero gradient)
     if c.op in ("solve", "solve_trace"):
         ests, trace, tol = U.scale(o["ests"], o["trace"], a["tol"])
         s = f"(zsolve {gzlist(ests)} {gnat(a['max_fails'])} {gopt(tol, gz)} {gnat(a['max_iters'])})"
@@ -462,9 +501,16 @@ def coq_check(c, o):
         return (oseq + f"list_eqb vec_eqb {gzmat(re_)} {gzmat(fr_)} && obs_bits [{gbool(o['restored'])}] && "
                 f"forallb (fun p => Z.leb (fst p) (snd p)) (combine {gzlist(fe[0])} {gzlist(f0[0])})")
     if c.op == "reuse":
-        if any("exc" in r for r in o["reused"] + o["fresh"]):
+        # a solve that raises (short zero supply of the stratified sampler: open finding C13-S1, a property of the sampler draw, not of
+        # the object's history) must raise identically on the reused and on the fresh object; the other positions are compared
+        pairs = list(zip(o["reused"], o["fresh"]))
+        if len(o["reused"]) != len(o["fresh"]) or any(("exc" in x) != ("exc" in y) or ("exc" in x and (x["exc"], x.get("msg")) != (y["exc"], y.get("msg")))
+                                                     for x, y in pairs):
             return "false"
-        re_, fr_ = U.scale_many([r["flat"] for r in o["reused"]], [r["flat"] for r in o["fresh"]])
+        if any("exc" in x and not (x["exc"] == "ValueError" and "broadcast" in x.get("msg", "") and a["probs"][k]["sparse"])
+               for k, (x, _) in enumerate(pairs)):
+            return "false"
+        re_, fr_ = U.scale_many([x["flat"] for x, _ in pairs if "exc" not in x], [y["flat"] for _, y in pairs if "exc" not in y])
         return f"list_eqb vec_eqb {gzmat(re_)} {gzmat(fr_)}"
     raise ValueError(c.op)
 
@@ -477,15 +523,19 @@ def oracle(c, o):
         return None
     if c.op == "driver":
         return D.driver_oracle(a, o)
+    if c.op == "direct":
+        return D.direct_oracle(a, o)
     if "exc" in o:
         return f"admissible request raised {o['exc']}: {o.get('msg')}"
     return U.oracle(c.op, a, o)
 
 
 # ----------------------------------------------------------------------------------------- findings
-TRIGGERS = {      # only the OPEN findings (A-47, C13-S1, C13-S3); the repaired ones (incl. C13-L1, C13-L2) are regression cases in gen_cases
+TRIGGERS = {      # only the OPEN findings (A-47, C13-S1, C13-S3, C13-G1); the repaired ones (incl. C13-L1, C13-L2) are regression cases in gen_cases
     "sptensor_without_nonzeros": lambda c: c.op.split("_")[0] in ("stratified", "semistrat") and not c.args["subs"] and c.args["cn"] == 0,
     "semistrat_zero_hits_nonzero": lambda c: c.op == "semistrat_prop" and bool(c.meta.get("semi_hit")),
+    # C13-G1: Adagrad.update_step saw an exactly zero gradient while its accumulator was 0 (decided from the captured step inputs)
+    "adagrad_zero_gradient": lambda c: c.op in ("solve", "solve_trace", "reuse") and c.args.get("opt") == "adagrad" and bool(c.meta.get("adagrad_zero")),
     "zero_supply_short": lambda c: c.op in ("stratified", "stratified_prop", "solve", "solve_trace") and bool(c.meta.get("short")),
 }
 WITNESSES = U.WITNESSES
